@@ -20,8 +20,7 @@ structure HygId (sfx i : Str) : Prop where
   cslash : (cN sfx i).contains '/' = false
   ncslash : (ncN i).contains '/' = false
 
-structure HygPair (cfg : Cfg) (sfx i j : Str) : Prop where
-  dropInj : dropMatch cfg (ncN i) (ncN j) = true → ncN j = ncN i
+structure HygPair (sfx i j : Str) : Prop where
   mdC : mdOf sfx (cN sfx i) = mdOf sfx (cN sfx j) → cN sfx i = cN sfx j
   mdN : mdOf sfx (ncN i) = mdOf sfx (ncN j) → ncN i = ncN j
   mdX : mdOf sfx (cN sfx i) = mdOf sfx (ncN j) → ncN i = ncN j
@@ -31,14 +30,11 @@ theorem hygId_of {sfx i : Str} (h : hygId sfx i = true) : HygId sfx i := by
   obtain ⟨⟨⟨⟨⟨⟨⟨⟨⟨⟨h1, h2⟩, h3⟩, h4⟩, h5⟩, h6⟩, h7⟩, h8⟩, h9⟩, h10⟩, h11⟩ := h
   exact ⟨h1, h2, h3, h4, h5, h6, h7, h8, h9, h10, h11⟩
 
-theorem hygPair_of {cfg : Cfg} {sfx i j : Str} (h : hygPair cfg sfx i j = true) : HygPair cfg sfx i j := by
+theorem hygPair_of {sfx i j : Str} (h : hygPair sfx i j = true) : HygPair sfx i j := by
   simp only [hygPair, Bool.and_eq_true, Bool.or_eq_true, decide_eq_true_eq, Bool.not_eq_true',
     decide_eq_false_iff_not] at h
-  obtain ⟨⟨⟨h1, h2⟩, h3⟩, h4⟩ := h
-  refine ⟨?_, ?_, ?_, ?_⟩
-  · intro hm; rcases h1 with h1 | h1
-    · rw [h1] at hm; cases hm
-    · exact h1
+  obtain ⟨⟨h2, h3⟩, h4⟩ := h
+  refine ⟨?_, ?_, ?_⟩
   · intro hm; rcases h2 with h2 | h2
     · exact absurd hm h2
     · exact h2
@@ -49,13 +45,13 @@ theorem hygPair_of {cfg : Cfg} {sfx i j : Str} (h : hygPair cfg sfx i j = true) 
     · exact absurd hm h4
     · exact h4
 
-theorem hyg_id {cfg : Cfg} {sfx : Str} {ids : List Str} (h : hyg cfg sfx ids = true) {i : Str} (hi : i ∈ ids) :
+theorem hyg_id {sfx : Str} {ids : List Str} (h : hyg sfx ids = true) {i : Str} (hi : i ∈ ids) :
     HygId sfx i := by
   simp only [hyg, Bool.and_eq_true, List.all_eq_true] at h
   exact hygId_of (h.1 i hi)
 
-theorem hyg_pair {cfg : Cfg} {sfx : Str} {ids : List Str} (h : hyg cfg sfx ids = true) {i j : Str}
-    (hi : i ∈ ids) (hj : j ∈ ids) : HygPair cfg sfx i j := by
+theorem hyg_pair {sfx : Str} {ids : List Str} (h : hyg sfx ids = true) {i j : Str}
+    (hi : i ∈ ids) (hj : j ∈ ids) : HygPair sfx i j := by
   simp only [hyg, Bool.and_eq_true, List.all_eq_true] at h
   exact hygPair_of (h.2 i hi j hj)
 
@@ -92,9 +88,9 @@ structure Full (s : Dir D) (d : Dict D) : Prop where
   nmem : ∀ n, n ∈ s.ncCache ↔ n ∈ keys d.notCompleted
 
 section
-variable {H : D → D} {cfg : Cfg} {sfx : Str} {ids : List Str} {s : Dir D} {d : Dict D}
+variable {H : D → D} {sfx : Str} {ids : List Str} {s : Dir D} {d : Dict D}
 
-theorem globC_eq (hy : hyg cfg sfx ids = true) (h : Sim H sfx ids s d) : globC s = keys d.completed := by
+theorem globC_eq (hy : hyg sfx ids = true) (h : Sim H sfx ids s d) : globC s = keys d.completed := by
   unfold globC
   rw [h.root, h.hsfx]
   apply List.filter_eq_self.mpr
@@ -102,7 +98,7 @@ theorem globC_eq (hy : hyg cfg sfx ids = true) (h : Sim H sfx ids s d) : globC s
   obtain ⟨i, hi, rfl⟩ := h.fromC n hn
   exact (hyg_id hy hi).cglob
 
-theorem globNc_eq (hy : hyg cfg sfx ids = true) (h : Sim H sfx ids s d) : globNc s = keys d.notCompleted := by
+theorem globNc_eq (hy : hyg sfx ids = true) (h : Sim H sfx ids s d) : globNc s = keys d.notCompleted := by
   unfold globNc
   by_cases hd : s.ncDir = true
   · rw [if_pos hd, h.nc]
@@ -113,7 +109,7 @@ theorem globNc_eq (hy : hyg cfg sfx ids = true) (h : Sim H sfx ids s d) : globNc
   · have : s.ncDir = false := by simpa using hd
     rw [if_neg hd, h.ncDir this]; rfl
 
-theorem sim_populate (hy : hyg cfg sfx ids = true) (h : Sim H sfx ids s d) :
+theorem sim_populate (hy : hyg sfx ids = true) (h : Sim H sfx ids s d) :
     Sim H sfx ids (populate s) d ∧ Full (populate s) d := by
   have hc := globC_eq hy h
   have hn := globNc_eq hy h
@@ -168,7 +164,7 @@ theorem contains_iff (hf : Full s d) (item : Str) (hp : startsWith item ncPrefix
 
 /-! ### `_write` -/
 
-theorem writeCore_root (hy : hyg cfg sfx ids = true) (h : Sim H sfx ids s d) {i : Str} (hi : i ∈ ids) (data : D) :
+theorem writeCore_root (hy : hyg sfx ids = true) (h : Sim H sfx ids s d) {i : Str} (hi : i ∈ ids) (data : D) :
     writeCore H s .root i s.sfx data =
       if s.mode = .r then (s, .err .ioError)
       else if cN sfx i ∈ keys d.completed then
@@ -203,7 +199,7 @@ theorem writeCore_root (hy : hyg cfg sfx ids = true) (h : Sim H sfx ids s d) {i 
 
 theorem sJson_ne_sLog : (sJson != sLog) = true := by decide
 
-theorem writeCore_nc (hy : hyg cfg sfx ids = true) (h : Sim H sfx ids s d) {i : Str} (hi : i ∈ ids) (data : D)
+theorem writeCore_nc (hy : hyg sfx ids = true) (h : Sim H sfx ids s d) {i : Str} (hi : i ∈ ids) (data : D)
     (hj : ncN i ∉ keys d.completed) :
     writeCore H s .nc i sJson data =
       if s.mode = .r then (s, .err .ioError)
@@ -246,17 +242,15 @@ theorem writeCore_nc (hy : hyg cfg sfx ids = true) (h : Sim H sfx ids s d) {i : 
 
 /-! ### the loop of `drop_not_completed` -/
 
-theorem dropMatch_self (cfg : Cfg) (k : Str) : dropMatch cfg k k = true := by
-  unfold dropMatch
-  by_cases h : cfg.exactDrop = true
-  · simp [h]
-  · have : k.isSuffixOf (ncPrefix ++ k) = true := List.isSuffixOf_iff_suffix.mpr (List.suffix_append _ _)
-    simp [h, endsWith, this]
+theorem dropMatch_self (k : Str) : dropMatch k k = true := by simp [dropMatch]
 
-theorem dropLoop_key (cfg : Cfg) (k : Str) (hk : k ≠ []) :
-    ∀ (ms : List Str) (s : Dir D), ms.Nodup → (∀ m ∈ ms, m ≠ k → dropMatch cfg k m = false) →
+theorem eq_of_dropMatch {k m : Str} (h : dropMatch k m = true) : m = k := by
+  simpa [dropMatch] using h
+
+theorem dropLoop_key (k : Str) (hk : k ≠ []) :
+    ∀ (ms : List Str) (s : Dir D), ms.Nodup → (∀ m ∈ ms, m ≠ k → dropMatch k m = false) →
       (k ∈ ms → has s.nc k = true ∧ has s.md5 (dropMd5 k) = true) →
-      dropLoop cfg k s ms =
+      dropLoop k s ms =
         (if k ∈ ms then { s with nc := del s.nc k, md5 := del s.md5 (dropMd5 k), ncCache := s.ncCache.erase k } else s,
          .done none) := by
   intro ms
@@ -294,10 +288,10 @@ theorem dropLoop_key (cfg : Cfg) (k : Str) (hk : k ≠ []) :
       · have hn2 : ¬ k ∈ m :: ms := fun h => hin (this.mp h)
         simp [hin, hn2]
 
-theorem dropLoop_all (cfg : Cfg) :
+theorem dropLoop_all :
     ∀ (ms : List Str) (s : Dir D), ms.Nodup → (ms.map dropMd5).Nodup →
       (∀ m ∈ ms, has s.nc m = true ∧ has s.md5 (dropMd5 m) = true) →
-      ∃ s', dropLoop cfg [] s ms = (s', .done none) ∧ s'.mode = s.mode ∧ s'.sfx = s.sfx ∧ s'.root = s.root ∧
+      ∃ s', dropLoop [] s ms = (s', .done none) ∧ s'.mode = s.mode ∧ s'.sfx = s.sfx ∧ s'.root = s.root ∧
         s'.ncDir = s.ncDir ∧ s'.cCache = s.cCache ∧
         (∀ x, get s'.nc x = if x ∈ ms then none else get s.nc x) ∧
         (∀ y, get s'.md5 y = get s.md5 y ∨ get s'.md5 y = none) := by
@@ -373,7 +367,7 @@ theorem populateNc_eq (s : Dir D) : populateNc s = { s with ncCache := (populate
 @[simp] theorem populateNc_md5 (s : Dir D) : (populateNc s).md5 = s.md5 := by unfold populateNc; split <;> rfl
 @[simp] theorem populateNc_cCache (s : Dir D) : (populateNc s).cCache = s.cCache := by unfold populateNc; split <;> rfl
 
-theorem populateNc_pre (hy : hyg cfg sfx ids = true) (p : DropPre sfx ids s) :
+theorem populateNc_pre (hy : hyg sfx ids = true) (p : DropPre sfx ids s) :
     (populateNc s).ncCache.Nodup ∧ (∀ n, n ∈ (populateNc s).ncCache ↔ n ∈ keys s.nc) := by
   have hg : globNc s = keys s.nc := by
     unfold globNc
@@ -397,16 +391,16 @@ theorem populateNc_pre (hy : hyg cfg sfx ids = true) (p : DropPre sfx ids s) :
 theorem dropKey_nil (sfx : Str) : dropKey sfx [] = [] := by
   simp [dropKey, replaceAll, replaceGo]
 
-theorem ne_nil_of_hyg (hy : hyg cfg sfx ids = true) {i : Str} (hi : i ∈ ids) : i ≠ [] := by
+theorem ne_nil_of_hyg (hy : hyg sfx ids = true) {i : Str} (hi : i ∈ ids) : i ≠ [] := by
   intro e
   subst e
   have := (hyg_id hy hi).dkey
   rw [dropKey_nil] at this
   exact ncN_ne_nil [] this.symm
 
-theorem dropNc_key (hy : hyg cfg sfx ids = true) (p : DropPre sfx ids s) {i : Str} (hi : i ∈ ids)
-    (hro : (cfg.roDropChecked && decide (s.mode = .r)) = false) :
-    dropNc cfg s i =
+theorem dropNc_key (hy : hyg sfx ids = true) (p : DropPre sfx ids s) {i : Str} (hi : i ∈ ids)
+    (hro : s.mode ≠ .r) :
+    dropNc s i =
       (if ncN i ∈ keys s.nc then
           { s with nc := del s.nc (ncN i), md5 := del s.md5 (dropMd5 (ncN i)),
                    ncCache := (populateNc s).ncCache.erase (ncN i) }
@@ -418,22 +412,22 @@ theorem dropNc_key (hy : hyg cfg sfx ids = true) (p : DropPre sfx ids s) {i : St
     cases h : ncN i with
     | nil => exact absurd h hk
     | cons _ _ => rfl
-  have hloop := dropLoop_key cfg (ncN i) hk (populateNc s).ncCache (populateNc s) hnd
+  have hloop := dropLoop_key (ncN i) hk (populateNc s).ncCache (populateNc s) hnd
     (by
       intro m hm hne
       obtain ⟨j, hj, rfl⟩ := p.from_ m ((hmem m).mp hm)
-      cases hb : dropMatch cfg (ncN i) (ncN j) with
+      cases hb : dropMatch (ncN i) (ncN j) with
       | false => rfl
-      | true => exact absurd ((hyg_pair hy hi hj).dropInj hb) hne)
+      | true => exact absurd (eq_of_dropMatch hb) hne)
     (by
       intro hin
       have hin' := (hmem _).mp hin
       rw [populateNc_eq s]
       exact ⟨has_true_of_mem hin', p.md _ hin'⟩)
   unfold dropNc
-  rw [hro]
+  rw [if_neg hro]
   have hdk : dropKey s.sfx i = ncN i := by rw [p.hsfx]; exact hid.dkey
-  simp only [Bool.false_eq_true, if_false, hdk]
+  simp only [hdk]
   rw [hloop]
   simp only [dropFinish, hke, Bool.not_false, if_true]
   by_cases hin : ncN i ∈ keys s.nc
